@@ -26,6 +26,11 @@ Inductive srun (g : cfg) : st -> list label -> st -> Prop :=
 Definition lang (g : cfg) (w : list label) : Prop :=
   exists e s, g_entry g = Some e /\ srun g (e, O) w s.
 
+(* words leading from the entry to the end of the exit block *)
+Definition clang (g : cfg) (w : list label) : Prop :=
+  exists e x ops, g_entry g = Some e /\ g_exit g = Some x /\ block_ops g x = Some ops /\
+                  srun g (e, O) w (x, length ops).
+
 Lemma srun_app g a w1 b w2 c : srun g a w1 b -> srun g b w2 c -> srun g a (w1 ++ w2) c.
 Proof.
   induction 1 as [s | s u1 s1 u2 s2 Hst Hr IH]; intros H2; [exact H2|].
@@ -219,4 +224,49 @@ Section MergeSim.
       assert (Hes : e <> s) by congruence.
       rewrite <- (phi_other e O Hes). apply sim_fwd_run. exact Hr.
   Qed.
+  (* words ending at the end of the exit block: preserved when the exit survives (it is neither m nor s)
+     or is the absorbed block s (merge redirects it to m); NOT when the exit is the absorbing block m
+     itself, whose end moves behind the instructions of s *)
+  Hypothesis Hexit_m : g_exit g <> Some m.
+  Hypothesis S4 : g_exit g' = match g_exit g with Some x => if x =? s then Some m else Some x | None => None end.
+
+  Theorem merge_sim_clang w : clang g' w <-> clang g w.
+  Proof.
+    split.
+    - intros (e & x' & ops' & He & Hx' & Hops' & Hr). rewrite S3 in He.
+      assert (Hes : e <> s) by congruence.
+      assert (Hv : valid_st g (e, O)).
+      { destruct (block_ops g e) as [ops|] eqn:E; [|exfalso; exact (Hentry_blk e He E)].
+        exists ops. split; [exact E | cbn; lia]. }
+      destruct (sim_bwd_run _ _ _ Hr (e, O) Hv (phi_other e O Hes)) as ([b k] & Hry & Hphi).
+      pose proof (valid_run _ _ _ Hv Hry) as (opsb & Hopsb & Hk). cbn [fst snd] in Hopsb, Hk.
+      rewrite S4 in Hx'. destruct (g_exit g) as [x|] eqn:Ex; [|discriminate].
+      destruct (x =? s) eqn:Exs.
+      + apply Z.eqb_eq in Exs. subst x. injection Hx' as <-. rewrite S1m in Hops'. injection Hops' as <-.
+        rewrite app_length in Hphi.
+        destruct (Z.eq_dec b s) as [->|Hbs].
+        * rewrite phi_s in Hphi. injection Hphi as Hk'. assert (k = length os_) by lia. subst k.
+          exists e, s, os_. auto.
+        * rewrite phi_other in Hphi by exact Hbs. injection Hphi as -> ->.
+          rewrite Hom in Hopsb. injection Hopsb as <-.
+          assert (Hl : length os_ = O) by lia.
+          exists e, s, os_. repeat split; auto. rewrite Hl.
+          rewrite <- (app_nil_r w). eapply srun_app; [exact Hry|].
+          replace (length om + length os_)%nat with (length om) by lia. exact hop.
+      + apply Z.eqb_neq in Exs. injection Hx' as <-. assert (Hxm : x <> m) by congruence.
+        rewrite (S1o x Hxm Exs) in Hops'.
+        destruct (Z.eq_dec b s) as [->|Hbs].
+        * rewrite phi_s in Hphi. injection Hphi as Hb _. congruence.
+        * rewrite phi_other in Hphi by exact Hbs. injection Hphi as -> ->.
+          exists e, x, ops'. auto.
+    - intros (e & x & ops & He & Hx & Hops & Hr).
+      assert (Hes : e <> s) by congruence. assert (Hxm : x <> m) by congruence.
+      pose proof (sim_fwd_run _ _ _ Hr) as Hr'. rewrite (phi_other e O Hes) in Hr'.
+      rewrite Hx in S4. destruct (x =? s) eqn:Exs.
+      + apply Z.eqb_eq in Exs. subst x. rewrite Hos in Hops. injection Hops as <-. rewrite phi_s in Hr'.
+        exists e, m, (om ++ os_). rewrite app_length. repeat split; auto. congruence.
+      + apply Z.eqb_neq in Exs. rewrite (phi_other x _ Exs) in Hr'.
+        exists e, x, ops. repeat split; auto; [congruence | rewrite (S1o x Hxm Exs); exact Hops].
+  Qed.
 End MergeSim.
+
